@@ -14,7 +14,44 @@ RULE = ("C->S: for every exported TL-B type of packages tlb, wallet, abi (type l
         "NON-EMPTY dictionaries, for which Enc prescribes no unique cell: HashmapE nodes carry key width and value schema, dictionaries "
         "are compared as [key bits, value] lists in ascending key order). Tlb_Gen checks Dec(Enc(v)) = v for every vector it emits and "
         "Dec against the reference dictionary writer in every label form. S->C: the boundary-value vectors of Tlb_Gen for all primitive and combinator "
-        "types are encoded and decoded by the library. Non-trivial = value other than the zero value; distinct = distinct (type, cell).")
+        "types are encoded and decoded by the library; TVM tuples (encoder 'not implemented': decode side only) are built from their schema by VmTuple_Gen and must decode, "
+        "as a value, on a stack and through VmStack.UnmarshalTL, to exactly the entries the specification put in. Non-trivial = value other than the zero value; distinct = distinct (type, cell).")
+
+
+def decode_only_tuples(ck):
+    """S->C: VmTuple_Gen (TLC) builds, from the schema of vm_stk_tuple / VmTuple / VmTupleRef, the cells of tuples of 0..5 entries (null,
+    tinyint, nan, nested tuples) together with the value each denotes; the library (VmStkTuple.MarshalTLB is "not implemented") must decode
+    every well-formed one - as a VmStackValue, on a VmStack and through VmStack.UnmarshalTL - to exactly those entries in order."""
+    res = ck.tlc_or_infra("VmTuple_Gen", "gen/VmTuple_Gen_full.cfg" if ck.thorough else "gen/VmTuple_Gen.cfg", workers=4, timeout=900, name="vmtuple", heap_gb=3)
+    vecs = [v for v in res.vecs() if v["wf"]]
+    if len(vecs) < 20 or not any(v["n"] == 1 for v in vecs):
+        raise Infra("VmTuple_Gen wrote only %d well-formed tuples" % len(vecs))
+    vp, tp = os.path.join(ck.work, "tuples_vec.ndjson"), os.path.join(ck.work, "tuples_trace.ndjson")
+    vlib.write_ndjson(vp, [{k: v[k] for k in ("n", "kind", "wf", "vals", "boc", "stack")} for v in vecs])
+    ck.run_vh(["drive", "C08", "-part", "tuples", "-in", vp, "-out", tp, "-tier", ck.tier, "-seed", ck.seed, "-shard", 0, "-shards", 1], timeout=1200)
+    evs = [e for e in vlib.read_ndjson(tp) if e.get("k") in ("Tuple", "Panic", "Crash", "Timeout")]   # (Begin records only attribute a death)
+    if sum(1 for e in evs if e.get("k") == "Tuple") < len(vecs):
+        raise Infra("only %d Tuple events for %d vectors" % (len(evs), len(vecs)))
+    ok = copy.deepcopy(next(e for e in evs if e.get("k") == "Tuple" and e.get("res") == "ok" and e.get("n", 0) >= 2))
+    bad = copy.deepcopy(ok); bad["got"] = bad["got"] + " "
+    vlib.write_ndjson(tp, evs + [bad, ok, {"k": "End", "events": len(evs) + 2}])
+    empty = os.path.join(ck.work, "empty.json")
+    open(empty, "w").write("{}")
+    res, rejected = ck.validate_events("Decode_Trace", "trace/Decode_Trace.cfg", tp, timeout=1800, name="tuples", heap_gb=3,
+                                       extra_files={"asts.json": empty, "schema.json": empty})
+    canary_hit = False
+    for rj in rejected:
+        e = rj["event"]
+        if rj["line"] == len(evs) + 1:
+            canary_hit = True
+            continue
+        ck.report("C03:tlb.VmStkTuple:decode-only:%s" % ("panic" if e.get("k") in ("Panic", "Crash", "Timeout") else "value"),
+                  "a TVM tuple of %s entries built from the schema (%s) is not decoded to the value it denotes: result %s, got %s" % (
+                      e.get("n"), str(e.get("vals"))[:200], e.get("res", e.get("k")), str(e.get("got", e.get("panic", "")))[:200]),
+                  {"kind": "tuple", "event": cellcommon.slim(e, 6000)})
+    ck.canary("S->C: a tuple event whose decoded entries differ from the expectation is rejected, the original accepted",
+              canary_hit and not any(rj["line"] == len(evs) + 2 for rj in rejected))
+    ck.extra["decode_only_tuples"] = len(evs)
 
 
 def run(ck):
@@ -34,6 +71,8 @@ def run(ck):
             ck.report("C03:prim:%s:%s" % (tlbcommon.type_class(v["type"]), r["what"].split(":")[0]),
                       "type %s value %s: %s" % (v["type"], json.dumps(v["v"])[:200], r["what"]), {"kind": "prim", "vector": v, "got": r})
     ck.evaluations += len(vecs)
+    # ---- types whose encoder is declared "not implemented" are exercised decode-side only: TVM tuples built by the specification
+    decode_only_tuples(ck)
     # ---- C->S round trips of every type
     traces = cellcommon.drive_shards(ck, "C03")
     def val(tp):
